@@ -5,6 +5,8 @@ From Coq Require Import List NArith Bool Arith Sorted.
 From Coq Require Import Strings.Byte.
 Require Import BS.Bytes BS.Common BS.Api BS.Layout BS.Format BS.FormatFacts BS.Spec BS.SpecStep.
 Require Import BS.FS BS.FSFacts BS.Meta BS.MetaFacts BS.Header BS.Reader BS.ReaderFacts BS.Index BS.Data BS.DataFacts BS.Seek BS.Series BS.SeriesFacts BS.ReadAllFacts BS.TotalFacts BS.CacheFacts BS.LevelFacts.
+Require Import BS.EstimateGenFacts.
+Require BSgen.EstimateGen.
 Import ListNotations.
 
 
@@ -45,3 +47,23 @@ Print Assumptions C19_read_n_with_caches.
 (* partial: with caches only read_n and the accepted push (props/C08.v) are covered; builder calls other than create
    (open, reopen: props/C04.v, C05.v, C09.v for the states they cover), and the state after a failed call are not
    covered by these theorems; there the judge and the correspondence decide. *)
+
+(* Tie 1 for the line estimate: gen/EstimateGen.v is translated on every run from RoughPos::estimate_lines in
+   /repo/src/seek/estimate.rs (tools/translate_estimate.py). The translated sixteen-arm match IS the match of the model
+   about which the totality of the level loop is proved, and its only panicking arm is the one the source marks
+   unreachable!() - re-checked against the current source text on every run *)
+Theorem C19_source_estimate_is_model : forall r p dl,
+  estimate_lines r p dl
+  = match BSgen.EstimateGen.gen_estimate_bytes (start_area_ r) (end_area_ r) p dl with
+    | Ok mm => Ok ((fst mm / line_size p)%N, (snd mm / line_size p)%N)
+    | Err e => Err e
+    | Panic => Panic
+    | OutOfFuel => OutOfFuel
+    end.
+Proof. exact gen_estimate_is_model. Qed.
+Print Assumptions C19_source_estimate_is_model.
+Theorem C19_source_estimate_total : forall sa ea p dl,
+  (match sa, ea with STillEnd _, EWindow _ _ => False | _, _ => True end) ->
+  exists mx mn, BSgen.EstimateGen.gen_estimate_bytes sa ea p dl = Ok (mx, mn).
+Proof. exact gen_estimate_total. Qed.
+Print Assumptions C19_source_estimate_total.
